@@ -824,10 +824,24 @@ func (t *tScreen) drawCell(x, y int) int {
 		defer func() {
 			t.TPuts(ti.TGoto(x-1, y))
 			t.TPuts(ti.InsertChar)
+			// redraw what we scribbled over: the 2nd to last cell, or
+			// the wide character whose right half is displayed there
+			rx := 0
+			for cx := 0; cx < x; {
+				_, _, _, cw := t.cells.GetContent(cx, y)
+				if cw < 1 {
+					cw = 1
+				}
+				rx = cx
+				cx += cw
+			}
+			if rx != x-1 {
+				t.TPuts(ti.TGoto(rx, y))
+			}
 			t.cy = y
-			t.cx = x - 1
-			t.cells.SetDirty(x-1, y, true)
-			_ = t.drawCell(x-1, y)
+			t.cx = rx
+			t.cells.SetDirty(rx, y, true)
+			_ = t.drawCell(rx, y)
 			t.TPuts(t.ti.TGoto(0, 0))
 			t.cy = 0
 			t.cx = 0
